@@ -54,6 +54,7 @@ type Case struct {
 	ReplySize int    `json:"reply_size"` // exact encoded size of the reply (0 = tiny)
 	RawPrefix []byte `json:"raw_prefix"` // httpstream-proto only: hand-written length prefix followed by 32 bytes
 	Frag      int    `json:"frag"`       // ws only: each message travels as RFC 6455 fragments of at most Frag bytes (0 = one frame)
+	Granular  bool   `json:"granular"`   // protobuf cells: messages are built from 2-byte occurrences of the id field instead of one long filler, so that (nearly) every prefix of an encoding is itself a decodable message
 }
 
 var (
@@ -116,6 +117,20 @@ func sized(w *dyn.World, codec string, id, target int) ([]byte, bool) {
 		}
 	}
 	return nil, false
+}
+
+// granular is a wire encoding of un.All{f_int32:id} with exactly n >= 3 bytes: the field (number 3, varint)
+// occurs over and over - legal, the last occurrence wins - so that cutting the encoding short at any
+// element boundary leaves a message that still decodes (to the same id).
+func granular(id, n int) []byte {
+	var b []byte
+	if n%2 == 1 {
+		b = append(b, 0x18, 0x80|byte(id), 0x00) // the same value as a two-byte varint
+	}
+	for len(b) < n {
+		b = append(b, 0x18, byte(id))
+	}
+	return b
 }
 
 type record struct {
@@ -234,6 +249,9 @@ func Check(c Case) ([]evid.Violation, info) {
 			continue
 		}
 		b, ok := sized(w, codec, i+1, sz)
+		if c.Granular && codec == "proto" && sz >= 3 {
+			b, ok = granular(i+1, sz), true
+		}
 		if !ok {
 			return nil, in
 		}
@@ -585,6 +603,7 @@ func genCase(t *rapid.T, cellPool []string) Case {
 	if strings.HasPrefix(c.Cell, "httpstream") || strings.HasPrefix(c.Cell, "grpc") || c.Cell == "ws" {
 		n = rapid.IntRange(1, 4).Draw(t, "n")
 	}
+	c.Granular = !strings.Contains(c.Cell, "json") && c.Cell != "ws" && !strings.HasPrefix(c.Cell, "httpbody") && rapid.IntRange(0, 2).Draw(t, "granular") == 0
 	over := rapid.IntRange(0, n).Draw(t, "overIdx") // index of the interesting message; n = none
 	for i := 0; i < n; i++ {
 		if i == over {
@@ -636,6 +655,9 @@ func genCase(t *rapid.T, cellPool []string) Case {
 
 func record1(c Case, in info) {
 	cl := []string{"cell=" + c.Cell}
+	if c.Granular {
+		cl = append(cl, "granular-messages")
+	}
 	if in.boundary {
 		cl = append(cl, "boundary")
 	}
@@ -669,7 +691,7 @@ func record1(c Case, in info) {
 				bc = append(bc, "<L")
 			}
 		}
-		key = fmt.Sprintf("%s|%v|%d|%d|%s|%x|%d", c.Cell, bc, c.L, c.S, strconv.Itoa(c.ReplySize), c.RawPrefix, c.Frag)
+		key = fmt.Sprintf("%s|%v|%d|%d|%s|%x|%d", c.Cell, bc, c.L, c.S, strconv.Itoa(c.ReplySize), c.RawPrefix, c.Frag) + fmt.Sprint(c.Granular)
 		if c.Frag > 0 {
 			cl = append(cl, "ws-fragmented")
 		}
